@@ -7,6 +7,8 @@ CONSTANTS
   Variants <- VariantsAll
   TK2 <- TK2Quick
   TK3 <- TK3Quick
+  ZeroInstr <- ZeroInstrQuick
+  L4 <- L4Quick
 SPECIFICATION Spec
 INVARIANTS DesignOK EmitCase
 CHECK_DEADLOCK FALSE
